@@ -357,6 +357,9 @@ func (r *runner) runGen(space string, o tlc.Opts) {
 					e = latgeo.Pyth
 				}
 				s := &Scenario{Kind: "bool", S: hdr.S, Samples: hdr.Samples, P: l.P, Q: l.Q, Emb: e, Exp: exp, F: l.F, Space: space}
+				if hangKeys[s.psvg()+"|"+s.qsvg()+"|"+s.Emb.Name] {
+					continue // witnessed in a child process (hangWitness)
+				}
 				st := &stamp{time.Now(), s}
 				r.inflight.Store(st, true)
 				ms := exec(s, false)
@@ -562,50 +565,104 @@ func ccfg(n, k, num int) string {
 // operations still do not return it is counted as the known finding timeout-<op>+degenerate@tri~jitter; if they
 // return, nothing is reported (the defect is gone). Any other outcome of the child is a machinery failure.
 func hangWitness(c *core.Ctx) {
-	path := filepath.Join(core.VerifDir, "known_findings.d", "C01-hang-witness.json")
-	raw, err := os.ReadFile(path)
-	if err != nil {
-		return // no witness recorded
-	}
-	var rec struct {
-		Scenario json.RawMessage `json:"scenario"`
-	}
-	if json.Unmarshal(raw, &rec) != nil {
-		c.Broken("hang witness unreadable")
-		return
-	}
 	exe, err := os.Executable()
 	if err != nil {
 		c.Broken("hang witness: " + err.Error())
 		return
 	}
-	ctx, cancel := context.WithTimeout(context.Background(), 3*time.Minute)
-	defer cancel()
-	cmd := exec_.CommandContext(ctx, exe, "C01", "--replay", path)
-	cmd.Env = append(os.Environ(), "VERIF_OUT="+os.TempDir())
-	out, _ := cmd.CombinedOutput()
-	var ms []core.Mismatch
-	for _, ln := range strings.Split(string(out), "\n") {
-		if i := strings.Index(ln, "mismatch signature="); i >= 0 {
-			f := strings.SplitN(ln[i+len("mismatch signature="):], " ", 2)
-			if strings.HasPrefix(f[0], "timeout-") {
-				ms = append(ms, core.Mismatch{Signature: f[0], Detail: "child process: " + ln[i:]})
+	// witnesses: the single replay file of the spike/jitter hang and one replay record per line of the ndjson file
+	var recs [][]byte
+	if raw, err := os.ReadFile(filepath.Join(core.VerifDir, "known_findings.d", "C01-hang-witness.json")); err == nil {
+		recs = append(recs, raw)
+	}
+	if raw, err := os.ReadFile(filepath.Join(core.VerifDir, "known_findings.d", "C01-hang-witnesses.ndjson")); err == nil {
+		for _, ln := range bytes.Split(raw, []byte("\n")) {
+			if len(bytes.TrimSpace(ln)) > 0 {
+				recs = append(recs, ln)
 			}
 		}
 	}
-	c.Count(5, 0, 1)
-	if len(ms) > 0 {
-		var s Scenario
-		json.Unmarshal(rec.Scenario, &s)
-		c.Report(&s, ms)
+	dir, err := os.MkdirTemp("", "c01-hang-")
+	if err != nil {
+		c.Broken("hang witness: " + err.Error())
+		return
 	}
+	defer os.RemoveAll(dir)
+	var wg sync.WaitGroup
+	for i, raw := range recs {
+		var rec struct {
+			Signature string          `json:"signature"`
+			Scenario  json.RawMessage `json:"scenario"`
+		}
+		if json.Unmarshal(raw, &rec) != nil {
+			c.Broken("hang witness unreadable")
+			continue
+		}
+		path := filepath.Join(dir, fmt.Sprintf("w%d.json", i))
+		os.WriteFile(path, raw, 0o644)
+		wg.Add(1)
+		go func() {
+			defer wg.Done()
+			ctx, cancel := context.WithTimeout(context.Background(), 3*time.Minute)
+			defer cancel()
+			cmd := exec_.CommandContext(ctx, exe, "C01", "--replay", path)
+			// the child is killed by the time limit; a call that allocates without end is stopped by the child's own memory guard
+			cmd.Env = append(os.Environ(), "VERIF_OUT="+dir, "VERIF_MEM_GB=3")
+			out, _ := cmd.CombinedOutput()
+			var ms []core.Mismatch
+			var s Scenario
+			json.Unmarshal(rec.Scenario, &s)
+			for _, ln := range strings.Split(string(out), "\n") {
+				if i := strings.Index(ln, "mismatch signature="); i >= 0 {
+					f := strings.SplitN(ln[i+len("mismatch signature="):], " ", 2)
+					if strings.HasPrefix(f[0], "timeout-") {
+						ms = append(ms, core.Mismatch{Signature: f[0], Detail: "child process: " + ln[i:]})
+					}
+				}
+			}
+			if len(ms) == 0 && strings.Contains(string(out), "process memory") {
+				ms = append(ms, core.Mismatch{Signature: "nontermination+" + s.tag(), Detail: fmt.Sprintf("child process: P=%s Q=%s emb=%s: a boolean operation allocates without end (the child's memory guard of 3 GB ended it)", s.psvg(), s.qsvg(), s.Emb.Name)})
+			}
+			c.Count(5, 0, 1)
+			if len(ms) > 0 {
+				c.Report(&s, ms)
+			}
+		}()
+	}
+	wg.Wait()
 }
+
+// hangKeys: scenarios that are known not to terminate are never executed in-process (they are witnessed in child processes)
+var hangKeys = func() map[string]bool {
+	m := map[string]bool{}
+	if raw, err := os.ReadFile(filepath.Join(core.VerifDir, "known_findings.d", "C01-hang-witnesses.ndjson")); err == nil {
+		for _, ln := range bytes.Split(raw, []byte("\n")) {
+			var rec struct {
+				Scenario Scenario `json:"scenario"`
+			}
+			if json.Unmarshal(ln, &rec) == nil && len(rec.Scenario.P) > 0 {
+				m[rec.Scenario.psvg()+"|"+rec.Scenario.qsvg()+"|"+rec.Scenario.Emb.Name] = true
+			}
+		}
+	}
+	return m
+}()
 
 func (d Driver) Run(c *core.Ctx) error {
 	c.Rule = "scenario = ordered pair of lattice paths (1-2 contours, 3-5 vertices each, all degenerate placements) printed by spec/BoolOps.tla with the expected three-valued cells of And/Or/Xor/Not/DivideBy, executed under 2-3 affine embeddings; evaluations = real boolean operations executed; non-trivial = distinct pairs whose regions overlap on at least one sample cell"
 	c.Assumptions = []string{"operands are lattice polygons and their affine images; the winding oracle (harness/internal/oracle) evaluates results at sample points that the spec proved to be off every input boundary",
 		"area laws are checked on the real outputs with tolerance 6.4e-5 * |det embedding| (snap grid 1e-8 * perimeter)"}
 	r := &runner{c: c}
+	c.AbortInfo = func() string {
+		var out []string
+		r.inflight.Range(func(k, _ any) bool {
+			if st := k.(*stamp); time.Since(st.t) > 5*time.Second {
+				out = append(out, fmt.Sprintf("P=%s Q=%s emb=%s space=%s (%.0f s)", st.s.psvg(), st.s.qsvg(), st.s.Emb.Name, st.s.Space, time.Since(st.t).Seconds()))
+			}
+			return true
+		})
+		return strings.Join(out, " | ")
+	}
 	// watchdog: an operation that does not return within 2 minutes is re-executed under a per-operation time limit;
 	// if that reproduces the non-termination it is reported and the run ends (the worker goroutine is lost). A slow
 	// but terminating scenario (machine load, GC) is left alone; a worker stuck for 20 minutes ends the run as a
